@@ -1,6 +1,8 @@
 package compiler
 
 import (
+	"sort"
+
 	"github.com/smarthome-go/homescript/v3/homescript/analyzer/ast"
 	"github.com/smarthome-go/homescript/v3/homescript/errors"
 	pAst "github.com/smarthome-go/homescript/v3/homescript/parser/ast"
@@ -125,13 +127,22 @@ func (self *Compiler) compileProgram(
 ) (MangleMappings, ModuleAnnotations, error) {
 	initFns := make(map[string]string)
 
+	// Modules are visited in the order of their names: map iteration order would make name
+	// mangling, global resolution and the order of the `@init` calls differ between runs.
+	moduleNames := make([]string, 0, len(program))
+	for moduleName := range program {
+		moduleNames = append(moduleNames, moduleName)
+	}
+	sort.Strings(moduleNames)
+
 	mappings := MangleMappings{
 		Functions:  make(map[string]string),
 		Globals:    make(map[string]string),
 		Singletons: make(map[string]string),
 	}
 
-	for moduleName, module := range program {
+	for _, moduleName := range moduleNames {
+		module := program[moduleName]
 		self.currModule = moduleName
 		self.modules[self.currModule] = make(map[string]*Function)
 		// Every module has its own root scope: a global only shadows names of its own module.
@@ -234,7 +245,8 @@ func (self *Compiler) compileProgram(
 
 	moduleAnnotations := make(ModuleAnnotations)
 
-	for moduleName, module := range program {
+	for _, moduleName := range moduleNames {
+		module := program[moduleName]
 		self.currModule = moduleName
 		self.setRootScope(self.moduleScopes[moduleName])
 
@@ -282,12 +294,12 @@ func (self *Compiler) compileProgram(
 			self.currFn = InitFunctionIdent
 			self.currModule = entryPointModule
 
-			for moduleName, otherInit := range initFns {
+			for _, moduleName := range moduleNames {
 				if moduleName == entryPointModule {
 					continue
 				}
 
-				self.insert(newOneStringInstruction(Opcode_Call_Imm, otherInit), mainFnSpan)
+				self.insert(newOneStringInstruction(Opcode_Call_Imm, initFns[moduleName]), mainFnSpan)
 			}
 
 			self.insert(newPrimitiveInstruction(Opcode_Return), mainFnSpan)
